@@ -40,6 +40,13 @@ pub struct Case {
     /// renders the same frequencies with this stage and alpha (history between objects)
     #[serde(default)]
     pub decoy: Option<(usize, f64)>,
+    /// linear output gain of the vocoder during the measurement (the response is divided by it)
+    #[serde(default = "one")]
+    pub volume: f64,
+}
+
+fn one() -> f64 {
+    1.0
 }
 
 pub fn gen_lsp(t: &mut Tape, m: usize) -> Vec<f64> {
@@ -95,7 +102,8 @@ impl Prop for LspSpectrum {
         let mut lsp = vec![if use_log_gain { gain.ln() } else { gain }];
         lsp.extend(gen_lsp(t, m));
         let decoy = if t.chance(0.3) { Some((t.urange(1, 4), gen_alpha(t))) } else { None };
-        Case { rate, alpha, stage, use_log_gain, lsp, decoy }
+        let volume = if t.chance(0.6) { 1.0 } else { t.log_uniform(0.05, 20.0) };
+        Case { rate, alpha, stage, use_log_gain, lsp, decoy, volume }
     }
     fn check(&self, c: &Case) -> Result<Report, Failure> {
         let gain = if c.use_log_gain { c.lsp[0].exp() } else { c.lsp[0] };
@@ -105,8 +113,12 @@ impl Prop for LspSpectrum {
             let mut other = c.lsp.clone();
             other[0] = if c.use_log_gain { 0.3 } else { 1.3 };
             let _ = measure_pulse(&other, st, c.use_log_gain, c.rate, al, 0.0, 1.0);
+            crate::dsp::hot_decoy(&other, if c.lsp.len() % 2 == 0 { st } else { c.stage }, c.use_log_gain, c.rate, c.alpha, 0.0);
         }
-        let m = measure_pulse(&c.lsp, c.stage, c.use_log_gain, c.rate, c.alpha, 0.0, 1.0);
+        let mut m = measure_pulse(&c.lsp, c.stage, c.use_log_gain, c.rate, c.alpha, 0.0, c.volume);
+        for v in m.frame1.iter_mut().chain(m.frame2.iter_mut()).chain(m.frame2_full.iter_mut()) {
+            *v /= c.volume;
+        }
         // reference minimum-phase response; must be free of time aliasing on the FFT grid
         let n = 65536;
         let ir = minphase_ir(model, n);
@@ -174,6 +186,7 @@ impl Prop for LspSpectrum {
         rep.metric("peak_output_magnitude", m.frame1.iter().fold(0.0f64, |a, x| a.max(x.abs())));
         rep.class_if(c.alpha == 0.0, "alpha=0");
         rep.class_if(c.decoy.is_some(), "after-another-vocoder-with-the-same-frequencies");
+        rep.class_if(c.volume != 1.0, "non-default-volume");
         Ok(rep)
     }
 }
@@ -213,7 +226,7 @@ impl Prop for LspAfterHistory {
         lsp.extend(gen_lsp(t, m));
         let k2 = rate / 20;
         let (history, mode) = crate::dsp::gen_spectrum_history(t, &lsp, k2 / 2, true);
-        HistCase { base: Case { rate, alpha, stage, use_log_gain, lsp, decoy: None }, mode, history }
+        HistCase { base: Case { rate, alpha, stage, use_log_gain, lsp, decoy: None, volume: 1.0 }, mode, history }
     }
     fn check(&self, c: &HistCase) -> Result<Report, Failure> {
         let b = &c.base;
